@@ -671,7 +671,37 @@ func cmdReplay(path string) int {
 		fmt.Fprintln(os.Stderr, err)
 		return 2
 	}
-	res, out, err := nativeRun([]nativeCase{{Harness: rf.Harness, Cfg: rf.Cfg, Inputs: rf.Inputs}}, false)
+	if strings.Contains(rf.Msg, "data race") {
+		var cs []nativeCase
+		for j := 0; j < 200; j++ {
+			cs = append(cs, nativeCase{Harness: rf.Harness, Cfg: rf.Cfg, Inputs: rf.Inputs})
+		}
+		_, rout, rerr := nativeRun(cs, true)
+		if rerr != nil && strings.Contains(rout, "DATA RACE") {
+			fmt.Println(raceExcerpt(rout))
+			fmt.Printf("REPRODUCED property=%s: %s\n", rf.Property, rf.Msg)
+			return 1
+		}
+		fmt.Println("not reproduced under the race detector in 200 runs")
+		return 0
+	}
+	n := 1
+	if strings.Contains(rf.Msg, "block forever") || strings.Contains(rf.Msg, "deadlock") {
+		n = 400
+	}
+	var cases []nativeCase
+	for j := 0; j < n; j++ {
+		cases = append(cases, nativeCase{Harness: rf.Harness, Cfg: rf.Cfg, Inputs: rf.Inputs})
+	}
+	res, out, err := nativeRun(cases, false)
+	if err == nil {
+		for _, r := range res {
+			if len(r.Failures) > 0 {
+				res[0] = r
+				break
+			}
+		}
+	}
 	if err != nil {
 		fmt.Fprintln(os.Stderr, err, "\n", out)
 		return 2
